@@ -18,8 +18,18 @@
    text-level rewritings), not by proof - EXCEPT for context resolution and macro expansion, for which (i) and (iv)
    are proved in this file (context_ignores_coordinates, expansion_ignores_coordinates): these two stages
    read kinds, parameters, annotations and parentheses, never positions - and EXCEPT for the scan loop itself, now
-   closed by blanks_only_shift_lexemes.  Still open for (i): lexemes -> directives, and the stages after expansion
-   (catalog building reads bodies through their coordinates).
+   closed by blanks_only_shift_lexemes - and EXCEPT for lexemes -> directives (proofs/ShapeScanProofs.v, end of
+   this file): the project scan of a single file without INCLUDE reads the KIND and the VALUE of every lexeme and
+   nothing else of it, so two inputs whose scans end at the end of the file with lexeme lists that agree in kinds
+   and values give forests of equal shape or errors of the same kind (same_values_same_forest_shape); with the
+   shift theorems: blank bytes or a comment line inserted at the start of a line do not change the shape of the
+   forest (blank_lines_do_not_change_the_forest, comment_lines_do_not_change_the_forest: the premises of
+   blanks_at_line_start_only_shift / comment_line_at_line_start_only_shifts plus "the scan reaches the end of the
+   file" and "no lexeme is the keyword INCLUDE").  Chain now proved for these insertions: text -> lexemes (shifted)
+   -> directives -> context resolution -> macro expansion, all up to coordinates.  Still open for (i): projects with
+   INCLUDE, documents the scanner itself rejects (ShiftProofs gives the shifted verdict; the project-level error is
+   not compared here), the stages after expansion (catalog building reads bodies through their coordinates), and
+   errors are compared by kind only in the scan stage.
    Whole comment lines "# text" + LF inserted in a shift state that admits a comment likewise only shift the later
    lexemes (comment_line_only_shifts_lexemes).  For an insertion point at the START OF A LINE (a empty or ending in
    LF) the run of the longer input up to the insertion point is no longer a premise: it is derived
@@ -47,7 +57,7 @@ From JV.gen Require Import DirectiveTables.
 From JV.model Require Import Core.
 From JV.spec Require Import ContextSpec.
 From JV.proofs Require Import TriviaProofs ShapeProofs.
-From JV.proofs Require TM_Events TM_Loop ShiftProofs.
+From JV.proofs Require TM_Events TM_Loop ShiftProofs ShapeScanProofs.
 Import ListNotations.
 Open Scope string_scope.
 Open Scope N_scope.
@@ -435,3 +445,124 @@ Theorem comment_line_between_directives_shifts :
                             (ShiftProofs.ShiftExample.a ++ ShiftProofs.CommentExample.cw ++ ShiftProofs.ShiftExample.b)%list) = SEof.
 Proof. exact ShiftProofs.CommentExample.comment_line_between_directives. Qed.
 Print Assumptions comment_line_between_directives_shifts.
+
+(* ---- from lexemes to directives (proofs/ShapeScanProofs.v) ----
+   Core.scan_project hands every lexeme of the scanner to process_lexeme, which reads its kind (lk) and its bytes
+   (lex_value) to decide; lb and le go into the coordinates of the directive and into error positions only. *)
+
+(* "the same up to positions": same length, same kinds, same bytes pairwise *)
+Theorem lexeme_values_agree_means : forall D D' ls ls',
+  ShapeScanProofs.lexeme_values_agree D D' ls ls' <->
+  Forall2 (fun l l' => lk l = lk l' /\
+                       lex_value D (N.of_nat (List.length D)) l = lex_value D' (N.of_nat (List.length D')) l') ls ls'.
+Proof. exact (fun _ _ _ _ => conj (fun H => H) (fun H => H)). Qed.
+Print Assumptions lexeme_values_agree_means.
+
+Theorem no_include_means : forall D ls,
+  ShapeScanProofs.no_include D ls <->
+  Forall (fun l => lexkind_eqb (lk l) LKeyword = true ->
+                   lex_value D (N.of_nat (List.length D)) l <> Ok (kind_keyword KInclude)) ls.
+Proof. exact (fun _ _ => conj (fun H => H) (fun H => H)). Qed.
+Print Assumptions no_include_means.
+
+Theorem same_forest_shape_means : forall r r',
+  ShapeScanProofs.same_forest_shape r r' =
+  match r, r' with
+  | COk f, COk f' => map tshape f = map tshape f'
+  | CErr e, CErr e' => ce_kind e = ce_kind e'
+  | CPanic x, CPanic x' => x = x'
+  | CFuel, CFuel => True
+  | _, _ => False
+  end.
+Proof. exact (fun _ _ => eq_refl). Qed.
+Print Assumptions same_forest_shape_means.
+
+(* two single-file projects whose scans reach the end of the file with lexemes that agree, no INCLUDE among them *)
+Theorem same_values_same_forest_shape : forall jsc enum banned root root' D D' fuel fuel',
+  snd (fst (scan jsc enum D)) = SEof -> snd (fst (scan jsc enum D')) = SEof ->
+  ShapeScanProofs.lexeme_values_agree D D' (fst (fst (scan jsc enum D))) (fst (fst (scan jsc enum D'))) ->
+  ShapeScanProofs.no_include D (fst (fst (scan jsc enum D))) ->
+  (List.length (fst (fst (scan jsc enum D))) < fuel)%nat -> (List.length (fst (fst (scan jsc enum D'))) < fuel')%nat ->
+  ShapeScanProofs.same_forest_shape (scan_forest_with fuel jsc enum [(root, FFile D)] banned root)
+                                    (scan_forest_with fuel' jsc enum [(root', FFile D')] banned root').
+Proof. exact ShapeScanProofs.same_values_same_forest_shape. Qed.
+Print Assumptions same_values_same_forest_shape.
+
+(* the loop of scan_project is the loop over the lexemes of the scan: process_lexeme for each, then processEOF
+   (ShapeScanProofs.scan_lexemes_loop); stated up to coordinates, which is all the scanner registers can change *)
+Theorem scan_project_is_lexeme_loop : forall jsc enum files banned root D fuel,
+  snd (fst (scan jsc enum D)) = SEof ->
+  ShapeScanProofs.no_include D (fst (fst (scan jsc enum D))) ->
+  (List.length (fst (fst (scan jsc enum D))) < fuel)%nat ->
+  ShapeScanProofs.same_forest_shape
+    (scan_project jsc enum files banned fuel (init_state root D) >>=c fun s => COk (forest_of s))
+    (ShapeScanProofs.scan_lexemes_loop jsc enum files banned (fst (fst (scan jsc enum D))) (init_state root D)
+       >>=c fun s => COk (forest_of s)).
+Proof. exact ShapeScanProofs.scan_project_is_lexeme_loop. Qed.
+Print Assumptions scan_project_is_lexeme_loop.
+
+(* where the lexemes lie: those returned before the insertion point end before it, those after it begin after it -
+   so the bytes of each are the same in a ++ b and (shifted) in a ++ w ++ b *)
+Theorem shifted_lexemes_have_the_same_values : forall (a w b : bytes) acc ls,
+  Forall (fun l => le l < N.of_nat (List.length a)) acc ->
+  Forall (fun l => N.of_nat (List.length a) <= lb l) ls ->
+  ShapeScanProofs.lexeme_values_agree (a ++ b)%list (a ++ w ++ b)%list
+    (rev acc ++ ls)%list (rev acc ++ map (ShiftProofs.shL (N.of_nat (List.length w))) ls)%list.
+Proof. exact ShapeScanProofs.shifted_lists_agree. Qed.
+Print Assumptions shifted_lexemes_have_the_same_values.
+
+(* blank lines / indentation inserted at the start of a line: the forest keeps its shape *)
+Theorem blank_lines_do_not_change_the_forest : forall jsc enum banned root root' (a w b : bytes) g acc fuel fuel',
+  TM_Events.len_sane jsc -> TM_Events.len_sane enum -> Forall TM_Loop.isb (a ++ b)%list ->
+  Forall (fun c => In c blank_bytes) w ->
+  ShiftProofs.line_start a ->
+  ShiftProofs.prefix_run jsc enum (a ++ b)%list (N.of_nat (List.length a)) = Some (g, acc) ->
+  Forall (ShiftProofs.local_call jsc enum w b) (ShiftProofs.prefix_calls jsc enum (a ++ b)%list (N.of_nat (List.length a))) ->
+  estk g = [] -> In (reg g) ShiftProofs.shift_states ->
+  snd (fst (scan jsc enum (a ++ b)%list)) = SEof ->
+  ShapeScanProofs.no_include (a ++ b)%list (fst (fst (scan jsc enum (a ++ b)%list))) ->
+  (List.length (fst (fst (scan jsc enum (a ++ b)%list))) < fuel)%nat ->
+  (List.length (fst (fst (scan jsc enum (a ++ b)%list))) < fuel')%nat ->
+  ShapeScanProofs.same_forest_shape
+    (scan_forest_with fuel jsc enum [(root, FFile (a ++ b)%list)] banned root)
+    (scan_forest_with fuel' jsc enum [(root', FFile (a ++ w ++ b)%list)] banned root').
+Proof. exact ShapeScanProofs.blank_lines_do_not_change_the_forest. Qed.
+Print Assumptions blank_lines_do_not_change_the_forest.
+
+(* a comment line "# text" + LF inserted at the start of a line: the forest keeps its shape *)
+Theorem comment_lines_do_not_change_the_forest : forall jsc enum banned root root' (a text b : bytes) g acc fuel fuel',
+  TM_Events.len_sane jsc -> TM_Events.len_sane enum -> Forall TM_Loop.isb (a ++ b)%list -> Forall TM_Loop.isb text ->
+  forallb plain_comment_byte text = true -> text <> [] ->
+  ShiftProofs.line_start a ->
+  let w := (35 :: text ++ [10])%list in
+  ShiftProofs.prefix_run jsc enum (a ++ b)%list (N.of_nat (List.length a)) = Some (g, acc) ->
+  Forall (ShiftProofs.local_call jsc enum w b) (ShiftProofs.prefix_calls jsc enum (a ++ b)%list (N.of_nat (List.length a))) ->
+  estk g = [] -> In (reg g) ShiftProofs.shift_states -> In (reg g) comment_entry_states ->
+  snd (fst (scan jsc enum (a ++ b)%list)) = SEof ->
+  ShapeScanProofs.no_include (a ++ b)%list (fst (fst (scan jsc enum (a ++ b)%list))) ->
+  (List.length (fst (fst (scan jsc enum (a ++ b)%list))) < fuel)%nat ->
+  (List.length (fst (fst (scan jsc enum (a ++ b)%list))) < fuel')%nat ->
+  ShapeScanProofs.same_forest_shape
+    (scan_forest_with fuel jsc enum [(root, FFile (a ++ b)%list)] banned root)
+    (scan_forest_with fuel' jsc enum [(root', FFile (a ++ w ++ b)%list)] banned root').
+Proof. exact ShapeScanProofs.comment_lines_do_not_change_the_forest. Qed.
+Print Assumptions comment_lines_do_not_change_the_forest.
+
+(* non-vacuity: "JSIGHT 0.3 / URL /a / GET", with a line of blanks (space, tab, CR, LF) and with the line "# note"
+   before GET; both theorems apply (ForestExample.blank_line_theorem_applies, comment_line_theorem_applies: every
+   premise by computation) and, computed: one shape, two top-level trees, GET at offsets 18, 22 and 25 *)
+Theorem three_layouts_one_forest_shape :
+  ShapeScanProofs.same_forest_shape
+    (ShapeScanProofs.ForestExample.project (ShiftProofs.ShiftExample.a ++ ShiftProofs.ShiftExample.b)%list)
+    (ShapeScanProofs.ForestExample.project (ShiftProofs.ShiftExample.a ++ ShiftProofs.ShiftExample.w ++ ShiftProofs.ShiftExample.b)%list) /\
+  ShapeScanProofs.same_forest_shape
+    (ShapeScanProofs.ForestExample.project (ShiftProofs.ShiftExample.a ++ ShiftProofs.ShiftExample.b)%list)
+    (ShapeScanProofs.ForestExample.project (ShiftProofs.ShiftExample.a ++ ShiftProofs.CommentExample.cw ++ ShiftProofs.ShiftExample.b)%list) /\
+  ShapeScanProofs.ForestExample.kw_offsets
+    (ShapeScanProofs.ForestExample.project (ShiftProofs.ShiftExample.a ++ ShiftProofs.ShiftExample.b)%list) = [0; 11; 18] /\
+  ShapeScanProofs.ForestExample.kw_offsets
+    (ShapeScanProofs.ForestExample.project (ShiftProofs.ShiftExample.a ++ ShiftProofs.ShiftExample.w ++ ShiftProofs.ShiftExample.b)%list) = [0; 11; 22] /\
+  ShapeScanProofs.ForestExample.kw_offsets
+    (ShapeScanProofs.ForestExample.project (ShiftProofs.ShiftExample.a ++ ShiftProofs.CommentExample.cw ++ ShiftProofs.ShiftExample.b)%list) = [0; 11; 25].
+Proof. exact ShapeScanProofs.ForestExample.three_layouts. Qed.
+Print Assumptions three_layouts_one_forest_shape.
